@@ -229,6 +229,9 @@ def classify_atom(c, atom, alias_term):
                 and ev.parts[0].origin[0] == "visit" and z3.simplify(ev.parts[0].origin[1]).eq(sm.elem_var):
             return R.Hole("list", sm.seq_term)
         return R.Hole("opaque", ("join", atom))
+    if o and o[0] == "join_map_filtered":
+        # the items' translations joined after a content-dependent selection (dict.fromkeys, set, ...): not the list of the items
+        return R.Hole("opaque", ("join", atom))
     # data: peel transformations down to a raw field
     transforms = []
     cur = atom
@@ -584,6 +587,8 @@ def reader_obligations(c, dkey, path, node, value, alias_term, spec_tree=None, p
             out.append(("post.lead", z3.Implies(z3.Not(mine), safe), inf))
     # data holes
     for hole, ctx, _ in rd["data"]:
+        if hole.kind == "opaque":
+            continue            # reported below as an unrecognised spliced value
         ok, reason = data_condition(c, hole, ctx, dialect)
         inf = {"template": text[:200], "context": ctx, "reason": reason,
                "field": f"{hole.payload.kind}.{hole.payload.field}" if hole.kind == "data" else "alias"}
@@ -626,7 +631,22 @@ def mirror(n):
         return ("bin", op, mirror(n.left), mirror(n.right))
     if k == "UnaryOp":
         return ("un", "NOT" if isinstance(n.op, ast.Not) else "-", mirror(n.operand))
+    if k == "List":
+        return ("list", len(n.val))
     return ("any",)
+
+
+def dup_lists(n):
+    # the same tree with the first item of every list literal repeated (repeats are legal and must be kept)
+    import dataclasses
+    if isinstance(n, list):
+        return [dup_lists(x) for x in n]
+    if not dataclasses.is_dataclass(n):
+        return n
+    kw = {f.name: dup_lists(getattr(n, f.name)) for f in dataclasses.fields(n)}
+    if isinstance(n, ast.List) and kw["val"]:
+        kw["val"] = [kw["val"][0]] + list(kw["val"])
+    return type(n)(**kw)
 
 def strip(t):
     while isinstance(t, tuple) and t and t[0] == "paren":
@@ -637,6 +657,12 @@ def same(parsed, want):
     parsed = strip(parsed)
     if want[0] == "any":
         return True
+    if want[0] == "list":
+        if not isinstance(parsed, tuple):
+            return False
+        if want[1] == 1:
+            return True        # `(x)` reads as a parenthesised expression in SQL: same value
+        return parsed[0] == "list" and len([x for x in parsed[1:] if x != ("trailing-comma",)]) == want[1]
     if not isinstance(parsed, tuple) or parsed[0] != want[0] or parsed[1] != want[1]:
         return False
     return all(same(p, w) for p, w in zip(parsed[2:], want[2:]))
@@ -669,6 +695,7 @@ from odata_query.grammar import ODataLexer, ODataParser
 trees = []
 try:
     trees.append(sanitize({witness_src}))
+    trees.append(dup_lists(trees[0]))
 except Exception as ex:
     pass
 BATTERY = {BATTERY!r} if {battery!r} else []
